@@ -421,6 +421,32 @@ func init() {
 					}
 				}
 			}
+			// a snapshot hands out copies: editing the tag maps of its entries changes nothing for the scopes (the tags
+			// delivered for one scope never change over its lifetime)
+			if path == "snap" {
+				for _, c := range n.collect() {
+					for k := range c.Tags {
+						c.Tags[k] = t.conc("c") // every value overwritten
+					}
+					if c.Tags != nil {
+						c.Tags[t.conc("b")] = t.conc("b")
+					}
+				}
+				for pi := 0; pi < len(progs); pi += 3 {
+					h := progHandle[pi]
+					if h < 0 {
+						continue
+					}
+					mname := fmt.Sprintf("c_%s", strings.Repeat("a", pi%7)+strings.Repeat("b", pi/7))
+					n.handles[h].Counter(t.conc(mname)).Inc(1)
+					for _, c := range n.collect() {
+						if c.Kind == "counter" && t.abst(c.Name) == expectedSuffix(t.abst(c.Name), mname) {
+							tr.Emit(M{"e": "metric", "h": h, "kind": "counter", "name": mname, "path": path, "got_name": t.abst(c.Name), "got_tags": t.abstMap(c.Tags), "after_snapshot_edit": true})
+							evals++
+						}
+					}
+				}
+			}
 			// "the tags delivered for one scope never change over its lifetime": some scopes obtained with SubScope (which
 			// add no tags of their own) are closed and retired by a report pass; what their parents, and every other
 			// scope that is still alive, deliver afterwards still follows their derivation
